@@ -49,29 +49,32 @@ type qOpen struct {
 }
 
 type qosRun struct {
-	rng      *rand.Rand
-	b        *broker.B
-	s        *broker.Conn
-	p        [2]*broker.Conn
-	r        *broker.Conn
-	sv5      bool
-	srm      uint16
-	ssei     uint32
-	sclean   bool
-	subqos   byte
-	uid      uint64
-	steps    sx.L
-	straddle bool
-	trace    bool
-	pend     []qPend          // S's view: outbound messages it has not finished acknowledging
-	open2    []qOpen          // S's own QoS 2 publishes without PUBREL yet
-	myuid    map[uint64][]byte // uid -> payload
-	lastDrop int64
-	nextPid  uint16
-	prevSnap *mqtt.VerifClient
-	t0       int64
-	sleepy   bool
-	evPos    int
+	rng       *rand.Rand
+	b         *broker.B
+	s         *broker.Conn
+	p         [2]*broker.Conn
+	r         *broker.Conn
+	sv5       bool
+	srm       uint16
+	ssei      uint32
+	sclean    bool
+	subqos    byte
+	uid       uint64
+	steps     sx.L
+	straddle  bool
+	trace     bool
+	pend      []qPend           // S's view: outbound messages it has not finished acknowledging
+	open2     []qOpen           // S's own QoS 2 publishes without PUBREL yet
+	myuid     map[uint64][]byte // uid -> payload
+	lastDrop  int64
+	nextPid   uint16
+	prevSnap  *mqtt.VerifClient
+	t0        int64
+	sleepy    bool
+	evPos     int
+	gate      *gate          // parks S's write loop at write.beforeLock (forced queue-full)
+	gated     bool           // the write loop is parked right now
+	gatedStep map[uint64]int // uid -> index of the step in which it was published while the loop was parked
 }
 
 func zz(n int64) sx.V {
@@ -104,6 +107,40 @@ func (q *qosRun) dropCount() int64 {
 	return snap.InfoInflightDrop
 }
 
+// sPacket converts one packet S received (nil if it is of no interest) and updates S's own bookkeeping.
+func (q *qosRun) sPacket(pk packets.Packet) sx.V {
+	t := pk.FixedHeader.Type
+	switch t {
+	case packets.Publish:
+		u := uidOf(pk.Payload)
+		if pk.FixedHeader.Qos > 0 {
+			found := false
+			for i := range q.pend {
+				if q.pend[i].pid == pk.PacketID {
+					found = true
+				}
+			}
+			if !found {
+				q.pend = append(q.pend, qPend{pid: pk.PacketID, uid: u, qos: pk.FixedHeader.Qos})
+			}
+		}
+		return sx.L{sx.N(3), sx.N(uint64(pk.PacketID)), sx.Bool(pk.FixedHeader.Dup),
+			sx.N(uint64(pk.FixedHeader.Qos)), sx.N(u), sx.N(0)}
+	case packets.Puback, packets.Pubrec, packets.Pubrel, packets.Pubcomp, packets.Disconnect:
+		if t == packets.Pubrec {
+			for i := range q.open2 {
+				if q.open2[i].pid == pk.PacketID {
+					q.open2[i].rec = true
+				}
+			}
+		}
+		return sx.L{sx.N(uint64(t)), sx.N(uint64(pk.PacketID)), sx.N(0), sx.N(0), sx.N(0), sx.N(uint64(pk.ReasonCode))}
+	case packets.Connack:
+		return sx.L{sx.N(2), sx.N(0), sx.Bool(pk.SessionPresent), sx.N(0), sx.N(0), sx.N(uint64(pk.ReasonCode))}
+	}
+	return nil
+}
+
 // observe drains everything and builds the obs value; cur is the connection whose output is S's.
 func (q *qosRun) observe(op sx.L, dropUid uint64) sx.L {
 	pkts := sx.L{}
@@ -112,36 +149,8 @@ func (q *qosRun) observe(op sx.L, dropUid uint64) sx.L {
 	for _, o := range q.b.Drain() {
 		if q.s != nil && o.Conn == q.s.Idx {
 			for _, pk := range o.Packets {
-				t := pk.FixedHeader.Type
-				switch t {
-				case packets.Publish:
-					u := uidOf(pk.Payload)
-					pkts = append(pkts, sx.L{sx.N(3), sx.N(uint64(pk.PacketID)), sx.Bool(pk.FixedHeader.Dup),
-						sx.N(uint64(pk.FixedHeader.Qos)), sx.N(u), sx.N(0)})
-					if pk.FixedHeader.Qos > 0 {
-						found := false
-						for i := range q.pend {
-							if q.pend[i].pid == pk.PacketID {
-								found = true
-							}
-						}
-						if !found {
-							q.pend = append(q.pend, qPend{pid: pk.PacketID, uid: u, qos: pk.FixedHeader.Qos})
-						}
-					}
-				case packets.Puback, packets.Pubrec, packets.Pubrel, packets.Pubcomp, packets.Disconnect:
-					pkts = append(pkts, sx.L{sx.N(uint64(t)), sx.N(uint64(pk.PacketID)), sx.N(0), sx.N(0), sx.N(0),
-						sx.N(uint64(pk.ReasonCode))})
-					if t == packets.Pubrec {
-						for i := range q.open2 {
-							if q.open2[i].pid == pk.PacketID {
-								q.open2[i].rec = true
-							}
-						}
-					}
-				case packets.Connack:
-					pkts = append(pkts, sx.L{sx.N(2), sx.N(0), sx.Bool(pk.SessionPresent), sx.N(0), sx.N(0),
-						sx.N(uint64(pk.ReasonCode))})
+				if v := q.sPacket(pk); v != nil {
+					pkts = append(pkts, v)
 				}
 			}
 			closed = o.Closed
@@ -288,9 +297,32 @@ func (q *qosRun) publishP(k int, t int, qos byte, mei uint32) {
 	} else {
 		mei = 0
 	}
-	q.b.SendPacket(q.p[k], pk)
-	if qos == 2 {
-		q.b.SendPacket(q.p[k], broker.AckPk(packets.Pubrel, 1, 0))
+	if q.gated {
+		// S's write loop is parked: feed without waiting for quiescence, wait for the publisher's handler only.
+		// The publisher's own identifier varies so that it collides with identifiers the broker uses towards S.
+		if qos > 0 {
+			pk.PacketID = uint16(1 + q.rng.Intn(3))
+		}
+		pk.ProtocolVersion = q.p[k].Version
+		data, _ := broker.Encode(pk)
+		q.b.Feed(q.p[k], data)
+		ok := waitFor(func() bool { return q.p[k].Parked() })
+		if ok && qos == 2 {
+			rel := broker.AckPk(packets.Pubrel, pk.PacketID, 0)
+			rel.ProtocolVersion = q.p[k].Version
+			data, _ = broker.Encode(rel)
+			q.b.Feed(q.p[k], data)
+			ok = waitFor(func() bool { return q.p[k].Parked() })
+		}
+		if !ok {
+			q.b.Hung = true
+		}
+		q.gatedStep[u] = len(q.steps)
+	} else {
+		q.b.SendPacket(q.p[k], pk)
+		if qos == 2 {
+			q.b.SendPacket(q.p[k], broker.AckPk(packets.Pubrel, 1, 0))
+		}
 	}
 	op := sx.L{sx.N(1), sx.N(uint64(qos)), sx.N(uint64(q.subqos)), sx.N(u), sx.N(uint64(k*2 + t)), zz(now),
 		sx.N(uint64(mei)), sx.Bool(pv5), sx.N(0)}
@@ -318,6 +350,56 @@ func (q *qosRun) publishP(k int, t int, qos byte, mei uint32) {
 		op[8] = sx.N(1)
 	}
 	q.observe(op, u)
+}
+
+// gatedBurst forces the queue-full rollback of publishToClient: S's write loop is parked in WritePacket
+// (schedule point write.beforeLock) holding one QoS 0 message, so with MaximumClientWritesPending = 1 the
+// first further message fills the outbound queue and every later one takes the `default:` branch of the
+// select.  What S receives after the release is attributed to the step that published it (by uid).
+func (q *qosRun) gatedBurst(n int) {
+	if q.gate == nil || !q.sConnected() || !q.sSubscribed() {
+		return
+	}
+	g := q.gate
+	g.mu.Lock()
+	g.armed = true
+	base := len(g.waiters)
+	g.mu.Unlock()
+	q.gated = true
+	q.publishP(1, 0, 0, 0) // the message the write loop parks with
+	parked := waitFor(func() bool { return g.count() == base+1 })
+	g.disarm() // later arrivals (the publishers' own acknowledgements) pass
+	if parked {
+		for i := 0; i < n; i++ {
+			q.publishP(q.rng.Intn(2), q.rng.Intn(2), byte(1+q.rng.Intn(2)), 0)
+		}
+	} else {
+		q.b.Hung = true
+	}
+	for j := base; j < g.count(); j++ {
+		g.release(j)
+	}
+	q.gated = false
+	q.b.Quiesce()
+	for _, o := range q.b.Drain() {
+		if q.s == nil || o.Conn != q.s.Idx {
+			continue
+		}
+		for _, pk := range o.Packets {
+			v := q.sPacket(pk)
+			if v == nil || pk.FixedHeader.Type != packets.Publish {
+				continue
+			}
+			if idx, ok := q.gatedStep[uidOf(pk.Payload)]; ok && idx < len(q.steps) {
+				step := q.steps[idx].(sx.L)
+				obs := step[1].(sx.L)
+				obs[0] = append(obs[0].(sx.L), v)
+			}
+		}
+	}
+	if q.trace {
+		fmt.Fprintf(os.Stderr, "  (gated burst released)\n")
+	}
 }
 
 // publishS: S publishes with an identifier of its choice.
@@ -446,6 +528,7 @@ type qosCfg struct {
 	script  string
 	steps   int
 	sleepy  bool
+	gate    bool   // MaximumClientWritesPending = 1 and forced queue-full bursts
 	word    []byte // exhaustive stream: a word over the symbolic alphabet a..g
 }
 
@@ -454,10 +537,18 @@ func runQosHistory(seed int64, c qosCfg, trace bool) sx.V {
 	caps := mqtt.NewDefaultServerCapabilities()
 	caps.ReceiveMaximum = c.srvrm
 	caps.MaximumInflight = c.maxinfl
+	var g *gate
+	if c.gate {
+		caps.MaximumClientWritesPending = 1
+		g = &gate{}
+		mqtt.VerifPointHook = g.hook
+	} else {
+		mqtt.VerifPointHook = nil
+	}
 	b := broker.New(broker.Opts{Caps: caps, Auth: broker.AllowAuth, ACL: broker.AllowACL, MaxPacketID: c.maxpid})
 	defer b.Shutdown()
 	q := &qosRun{rng: rand.New(rand.NewSource(seed)), b: b, subqos: c.subqos, trace: trace, myuid: map[uint64][]byte{},
-		sleepy: c.sleepy}
+		sleepy: c.sleepy, gate: g, gatedStep: map[uint64]int{}}
 	if trace {
 		fmt.Fprintf(os.Stderr, "history seed=%d cfg=%+v\n", seed, c)
 	}
@@ -585,6 +676,13 @@ func (q *qosRun) runScript(c qosCfg) {
 		q.publishP(0, 0, 1, 0)
 		q.publishP(0, 0, 1, 0)
 		q.ackS(packets.Puback, 1, 0)
+	case "c10q": // queue-full rollback while the publisher's identifier collides with one in flight to S
+		q.publishP(0, 0, 1, 0)
+		q.publishP(0, 0, 2, 0)
+		q.publishP(0, 0, 1, 0)
+		q.gatedBurst(4)
+		q.disconnectS(false)
+		q.reconnect(c, false)
 	case "c12a": // deferred messages leave in arbitrary order
 		q.publishP(0, 0, 1, 0)
 		q.publishP(0, 0, 1, 0)
@@ -725,7 +823,11 @@ func (q *qosRun) randomStep(c qosCfg) {
 		pid := uint16(1 + r.Intn(5))
 		q.ackS(ty, pid, 0)
 	case k < 91:
-		q.pingS()
+		if q.gate != nil {
+			q.gatedBurst(1 + r.Intn(4))
+		} else {
+			q.pingS()
+		}
 	case k < 95:
 		q.disconnectS(r.Intn(3) == 0)
 	case k < 98: // takeover: a second connection with the same client id
@@ -791,6 +893,22 @@ func engQos(seed int64, tier string, args []string, out *sx.Out) {
 			c.steps = 12
 			emit(c)
 		}
+	}
+	// forced queue-full (write loop parked, outbound queue of one): scripted, then inside random histories
+	nq := 6
+	if tier == "thorough" {
+		nq = 120
+	}
+	for i := 0; i < nq && (only == "" || only == "c10q"); i++ {
+		c := base
+		c.srvrm, c.rm, c.gate, c.script = 4, uint16(20*(i%2)), true, "c10q" // quota left: the burst reaches the queue
+		if i%3 != 0 {
+			c.steps = 15
+		}
+		if i%3 == 2 {
+			c.maxpid = 6
+		}
+		emit(c)
 	}
 	if only != "" {
 		return
